@@ -16,12 +16,22 @@ list, mesh data accepted by the decidable `MeshData.wfCheck`); none of the close
 `d ≠ 0` (for `d = 0` every point of the set is a support point, and the code's `norm == 0`
 branches return a point of the set) nor an orthonormal pose.
 
+Mesh hill climbing is the code AFTER repair e900ae9 (finding F-mesh-hill-climb-cycle): one computed
+projection per vertex, acceptance `projection - best_projection > PROJECTION_LENGTH_EPSILON`.
+Its termination is proved for EVERY scalar type and arithmetic (`hillClimb_terminates_anyArith`,
+`_strictOrder`, `_floatLike`) — this covers floating point, which the exact-real statements do
+not; the climb before the repair is kept as `…_asIs_before_fix` with a before/after pair
+(`hillClimb_asIs_before_fix_counterexample` / `hillClimb_fixed`).
+
 Nothing in this file is partial. What the theorems do not cover is listed in
 harness/props/c03.py (`PARTIAL`): `Unimodal` is an explicit hypothesis of the global statement
 for meshes (not derived from convexity of the mesh; its decidable form `unimodalCheck` is
-evaluated by the driver on the harness's meshes), and floating-point rounding is not modelled.
+evaluated by the driver on the harness's meshes), and rounding of the returned values is not
+modelled (termination no longer depends on that).
 -/
 import D3.Proofs.SupportCollider
+import D3.Proofs.SupportMeshCycle
+import D3.Proofs.SupportMeshFloatLike
 
 namespace D3
 namespace C03
@@ -333,11 +343,12 @@ theorem margin_support_within (K : V → Prop) (m : ℝ) (hm : 0 ≤ m) (d p : V
 `connections` (it occurs in no triangle) the call fails with `KeyError` — as the implementation
 does. `MeshWF` (shortcut vertices occur in triangles) is therefore the precise precondition of
 the four theorems above. -/
-theorem hillClimb_keyError (τ : ℝ) (d : V) (m : MeshData ℝ) (start b0 : Nat) (sc : Bool)
-    (hsc : climbFold τ d m.verts m.shortcuts (start, false) = .ok (b0, sc))
-    (hkey : m.conn.lookup b0 = none) (hn : 0 < m.verts.size) :
+theorem hillClimb_keyError (τ : ℝ) (d : V) (m : MeshData ℝ) (start : Nat) (bp0 : ℝ)
+    (st0 : ClimbSt ℝ) (hp : vertexProj d m.verts start = .ok bp0)
+    (hsc : climbFold τ d m.verts m.shortcuts ⟨start, bp0, false, 0⟩ = .ok st0)
+    (hkey : m.conn.lookup st0.best = none) (hn : 0 < m.verts.size) :
     hillClimbT τ d start m = .error .keyError :=
-  Support.hillClimb_keyError τ d m start b0 sc hsc hkey hn
+  Support.hillClimb_keyError τ d m start bp0 st0 hp hsc hkey hn
 
 /-- the tetrahedron plus a fifth vertex `(5,5,5)` referenced by no triangle: that vertex is the
 arg-max of every coordinate, i.e. three of the six shortcuts -/
@@ -356,9 +367,94 @@ theorem hillClimb_unusedVertex_asIs_counterexample :
   have hτ0 : ¬ ((Gen.mesh__PROJECTION_LENGTH_EPSILON : ℝ) < 0) := not_lt.mpr eps_nonneg
   have hτ5 : ¬ ((Gen.mesh__PROJECTION_LENGTH_EPSILON : ℝ) < -5) := by
     have := eps_nonneg; intro h; linarith
-  apply hillClimb_keyError _ _ _ 0 4 true _ rfl (by decide)
-  simp only [tetraPlus, climbFold, projLen, V3.dot_def, V3.sub_x, V3.sub_y, V3.sub_z]
-  norm_num [hτ, hτ0, hτ5]
+  apply hillClimb_keyError _ _ _ 0 0 ⟨4, 5, true, 1⟩ _ _ rfl (by decide)
+  · simp [tetraPlus, vertexProj, V3.dot_def]
+  · simp only [tetraPlus, climbFold, vertexProj, V3.dot_def]
+    norm_num [hτ, hτ0, hτ5]
+
+/-! ## termination in every arithmetic (repair e900ae9) and the defect it repaired -/
+
+/-- **Termination of the repaired climb in ANY arithmetic.** For every scalar type `α` and every
+instance of `+ - * / <` on it — no algebraic or order law assumed — every threshold, direction,
+well-formed mesh data and valid start: if the acceptance test `τ < proj c - proj b` on the ONE
+computed projection per vertex is contained in some strict order `R` on vertex indices, then for
+every fuel ≥ #vertices the model of `hill_climb_mesh_extreme` returns (no `fuel`, `KeyError`,
+`IndexError`) after at most #vertices − 1 accepted moves (shortcut pass included) and at most
+#vertices passes of the `while` loop (branch = 2·passes + shortcut flag), at a valid vertex none
+of whose neighbours passes the acceptance test, which is the start or above it in `R`. -/
+theorem hillClimb_terminates_anyArith {α : Type} [Add α] [Sub α] [Mul α] [Div α] [Neg α] [LT α]
+    [LE α] [DecidableLT α] [DecidableLE α] [DecidableEq α] [OfNat α 0] [OfNat α 1] [OfNat α 2]
+    [OfScientific α] [Min α] [Max α] [HasSqrt α]
+    (τ : α) (d : V3 α) (m : MeshData α) (hwf : MeshWF m) (R : Nat → Nat → Prop)
+    (hR : AcceptOrder τ d m.verts R) (start : Nat) (hs : Valid m start) (fuel : Nat)
+    (hfuel : m.verts.size ≤ fuel) :
+    ∃ r br moves, hillClimbF τ d start m fuel = .ok (r, br, moves) ∧ Valid m r ∧
+      moves + 1 ≤ m.verts.size ∧ br ≤ 2 * m.verts.size + 1 ∧ (r = start ∨ R start r) ∧
+      (∀ l, connLookup m.conn r = .ok l →
+        ∀ c ∈ l, ¬ (τ < projAt d m.verts c - projAt d m.verts r)) :=
+  hillClimbF_terminates_anyArith τ d m hwf R hR start hs fuel hfuel
+
+/-- **… in particular whenever `<` is a strict order and `τ < a - b → b < a`** — the contract of
+IEEE-754 comparison and subtraction (for `τ ≥ 0` or `τ` NaN; with a NaN operand every comparison
+is false and no move is accepted). Nothing is assumed about `+` and `*`, i.e. about how `dot`
+rounds or in which order it sums. This covers the floating-point run, which the exact-real
+theorem `hillClimb_terminates_local` does not. -/
+theorem hillClimb_terminates_strictOrder {α : Type} [Add α] [Sub α] [Mul α] [Div α] [Neg α] [LT α]
+    [LE α] [DecidableLT α] [DecidableLE α] [DecidableEq α] [OfNat α 0] [OfNat α 1] [OfNat α 2]
+    [OfScientific α] [Min α] [Max α] [HasSqrt α]
+    (τ : α) (d : V3 α) (m : MeshData α) (hwf : MeshWF m)
+    (lt_irrefl : ∀ a : α, ¬ a < a) (lt_trans : ∀ a b c : α, a < b → b < c → a < c)
+    (sub_pos : ∀ a b : α, τ < a - b → b < a)
+    (start : Nat) (hs : Valid m start) (fuel : Nat) (hfuel : m.verts.size ≤ fuel) :
+    ∃ r br moves, hillClimbF τ d start m fuel = .ok (r, br, moves) ∧ Valid m r ∧
+      moves + 1 ≤ m.verts.size ∧ br ≤ 2 * m.verts.size + 1 ∧
+      (r = start ∨ projAt d m.verts start < projAt d m.verts r) ∧
+      (∀ l, connLookup m.conn r = .ok l →
+        ∀ c ∈ l, ¬ (τ < projAt d m.verts c - projAt d m.verts r)) :=
+  hillClimbF_terminates_strictOrder τ d m hwf lt_irrefl lt_trans sub_pos start hs fuel hfuel
+
+/-- non-vacuity at ℝ (threshold 1e-15, the tetrahedron, fuel 4): at most 3 moves -/
+example : ∃ r br moves, hillClimbF (1e-15 : ℝ) ⟨1, 2, 3⟩ 0 tetra 4 = .ok (r, br, moves) ∧
+    Valid tetra r ∧ moves + 1 ≤ tetra.verts.size :=
+  let ⟨r, br, mv, h, hv, hm, _⟩ := hillClimb_terminates_strictOrder (1e-15 : ℝ) ⟨1, 2, 3⟩ tetra
+    tetra_wf (fun a => lt_irrefl a) (fun _ _ _ h1 h2 => lt_trans h1 h2)
+    (fun a b h => by norm_num at h; linarith) 0 tetra_valid0 4 (by decide)
+  ⟨r, br, mv, h, hv, hm⟩
+
+/-- **Float-like arithmetics, NaN included.** Values are reals or NaN, comparisons with NaN are
+false, `a - b` is any rounding of the exact difference that does not make a non-positive
+difference positive (NaN if an operand is NaN), `+ * / sqrt` are arbitrary functions: the
+repaired climb terminates within its fuel for every threshold that is NaN or ≥ 0. -/
+theorem hillClimb_terminates_floatLike (S : FLSpec) (τ : FL S) (hτ : ∀ t, τ = some t → 0 ≤ t)
+    (d : V3 (FL S)) (m : MeshData (FL S)) (hwf : MeshWF m) (start : Nat) (hs : Valid m start)
+    (fuel : Nat) (hfuel : m.verts.size ≤ fuel) :
+    ∃ r br moves, hillClimbF τ d start m fuel = .ok (r, br, moves) ∧ Valid m r ∧
+      moves + 1 ≤ m.verts.size :=
+  hillClimbF_terminates_floatLike S τ hτ d m hwf start hs fuel hfuel
+
+/-- **The defect (code before e900ae9), part 1.** In the arithmetic `Noisy` (exact `- * <`,
+a cancelling sum comes out as the noise 2) on the single triangle `cycMesh` with
+`d = (1,1,0)`, `τ = 1`, the pre-repair acceptance test `τ < d · (v_c − v_b)` holds for
+0 → 1, 1 → 2 and 2 → 0: it is contained in no strict order on the vertices. -/
+theorem hillClimb_asIs_before_fix_acceptance_not_an_order (R : Nat → Nat → Prop)
+    (hirr : ∀ i, ¬ R i i) (htr : ∀ i j k, R i j → R j k → R i k)
+    (hacc : ∀ b c pl, projLen cycDir cycMesh.verts c b = .ok pl → cycTau < pl → R b c) : False :=
+  asIs_acceptance_in_no_strict_order R hirr htr hacc
+
+/-- **The defect, part 2: non-termination.** On that well-formed mesh (exactly what the model
+of `__init__` builds from one triangle: `cycMesh_is_built`) the pre-repair climb exhausts EVERY
+fuel. -/
+theorem hillClimb_asIs_before_fix_counterexample (fuel : Nat) :
+    hillClimbF_asIs_before_fix cycTau cycDir 0 cycMesh fuel = .error .fuel :=
+  hillClimb_asIs_before_fix_cycles fuel
+
+/-- **The repair on the same data and the same arithmetic**: `Noisy` meets the contract of
+`hillClimb_terminates_strictOrder`, so the repaired climb returns for every start and every
+fuel ≥ 3 after at most 2 moves; from vertex 0 it is one move, two passes, result vertex 2. -/
+theorem hillClimb_fixed (start : Nat) (hs : start < 3) (fuel : Nat) (hfuel : 3 ≤ fuel) :
+    (∃ r br moves, hillClimbF cycTau cycDir start cycMesh fuel = .ok (r, br, moves) ∧ moves ≤ 2) ∧
+    hillClimbF cycTau cycDir 0 cycMesh 3 = .ok (2, 3, 1) :=
+  ⟨hillClimb_fixed_terminates_on_cycle start hs fuel hfuel, hillClimb_fixed_on_cycle_value⟩
 
 end C03
 end D3
